@@ -40,16 +40,19 @@ func init() {
 	})
 	register(&Property{
 		ID: "C07",
-		Explanation: "Decides format agreement for unpacked files: (version-byte) the constant byte compressUnpacked prepends before EncodeAll of the whole payload equals the only first byte on which decompressUnpacked reaches DecodeAll, DecodeAll is applied to p[1:], the raw-JSON escape bytes differ from it, and in a v2 repository every success return passes a recognised first byte (unknown encodings are rejected); (config-exempt-siblings) saveUnpacked, verifyUnpacked and LoadUnpacked each (de)compress exactly when t != ConfigFile; (verify-before-store) the file is decrypted, decompressed and compared with the input before it is handed to the backend; (format-version-source) the version an open repository encodes for is the version of the stored config: Repository.cfg is assigned only by setConfig, which is called only with a config just loaded (success edge of LoadConfig) or by init with the very config whose SaveConfig result is init's result (added after a seeded change that switched the handle to v2 before the upgraded config was stored). Not decided: byte equality of zstd round trips for arbitrary payloads.",
+		Explanation: "Decides format agreement for unpacked files: (version-byte) the constant byte compressUnpacked prepends before EncodeAll of the whole payload equals the only first byte on which decompressUnpacked reaches DecodeAll, DecodeAll is applied to p[1:], the raw-JSON escape bytes differ from it, and in a v2 repository every success return passes a recognised first byte (unknown encodings are rejected); (config-exempt-siblings) saveUnpacked, verifyUnpacked and LoadUnpacked each (de)compress exactly when t != ConfigFile; (verify-before-store) the file is decrypted, decompressed and compared with the input before it is handed to the backend; (format-version-source) the version an open repository encodes for is the version of the stored config: Repository.cfg is assigned only by setConfig, which is called only with a config just loaded (success edge of LoadConfig) or by init with the very config whose SaveConfig result is init's result (added after a seeded change that switched the handle to v2 before the upgraded config was stored). (legacy-markers) decompressUnpacked compares the first byte with both '[' and '{' (raw files of a version 1 repository, read after the upgrade) and with the version byte 2 (added after a seeded change that dropped '['). Not decided: byte equality of zstd round trips for arbitrary payloads.",
 		Assumptions: append([]string{"zstd EncodeAll/DecodeAll are inverse to each other"}, commonAssumptions...),
 		Technique:   "static analysis: constant-table agreement between writer and reader + CFG edge cuts (go/ssa)",
 		Run: func(c *eng.Ctx) {
+			ruleLegacyMarkers(c)
 			ruleVersionByte(c)
 			ruleConfigExempt(c)
 			ruleVerifyBeforeStore(c)
 			ruleFormatVersionSource(c)
 		},
 		Controls: []Control{
+			{Name: "legacy-check-forgets-the-brace", File: "internal/repository/repository.go",
+				Old: "	if p[0] == '[' || p[0] == '{' {", New: "	if p[0] == '[' {", Rule: "legacy-markers"},
 			{Name: "searchkey-sets-config-before-load-succeeded", File: "internal/repository/repository.go",
 				Old: "	cfg, err := restic.LoadConfig(ctx, r)\n	if err != nil {\n		r.key = oldKey", New: "	cfg, err := restic.LoadConfig(ctx, r)\n	r.setConfig(cfg)\n	if err != nil {\n		r.key = oldKey", Rule: "format-version-source"},
 			{Name: "writer-version-3", File: "internal/repository/repository.go",
